@@ -8,12 +8,13 @@ import tempfile
 
 VERIF = os.path.dirname(os.path.dirname(os.path.abspath(__file__)))
 MODES = {
-    'C01': ['c01_engine', 'c07_ol', 'c20_nth', 'c02_tables'],
+    'C01': ['c01_engine', 'c07_ol', 'c20_nth', 'c02_tables', 'c01_colspan', 'c16_prefix'],
     'C02': ['c02_tables', 'c16_prefix'],
     'C03': ['c03_tables'],
     'C06': ['c03_tables', 'c02_tables'],
     'C07': ['c07_ol', 'c16_prefix'],
-    'C16': ['c16_prefix'],
+    'C14': ['c14_hardwrap'],
+    'C16': ['c16_prefix', 'c16_trivial'],
     'C19': ['c19', 'c19_inherit'],
     'C20': ['c20_nth'],
 }
